@@ -256,6 +256,18 @@ func oracle(pl *plan, w *relaysim.World, preps []*prepCall, stopT time.Duration,
 		}
 	}
 
+	// a relay that answers normally and quickly must be allowed to answer: vouch may not abort its
+	// submission because another relay or node failed in the meantime
+	for _, c := range w.Script.CallsOf("", "SubmitValidatorRegistrations") {
+		if c.Outcome.Kind == "" && c.Outcome.Latency <= 400*time.Millisecond && c.Cancelled && c.EndT < stopT-time.Millisecond && c.EndT-c.T < c.Outcome.Latency {
+			report(Viol("C11/healthy-relay-submission-aborted", "the submission to %s started at %v (answer due after %v) was cancelled by vouch at %v although that relay was answering normally", c.Party, c.T, c.Outcome.Latency, c.EndT))
+			break
+		}
+		if c.Outcome.Kind == "" && c.Outcome.Latency > 0 && !c.Cancelled {
+			out.Probes["slow-healthy-relay-answered"]++
+		}
+	}
+
 	// rounds: every ValidatingAccountsForEpoch call made by the registration job
 	var rounds []relaysim.AccountsCall
 	for _, c := range w.Accounts.Calls {
